@@ -124,6 +124,30 @@ def r1_builtin_maps(ctx: Ctx) -> None:
     ctx.floor("rom_types", 2)
 
 
+def _project(ctx: Ctx, text: str) -> str:
+    """`Mapping(a, b, c, d).bank_range` is `a`: a field of a freshly constructed Mapping is the constructor argument stored in it"""
+    init = ctx.repo.func(MAPPING, "Mapping.__init__")
+    params = init.params()[1:]
+    field_of = {unparse(n.targets[0]).split(".", 1)[1]: unparse(n.value) for n in walk_no_nested(init.node)
+                if isinstance(n, ast.Assign) and unparse(n.targets[0]).startswith("self.") and unparse(n.value) in params}
+
+    class T(ast.NodeTransformer):
+        def visit_Attribute(self, node: ast.Attribute) -> ast.AST:
+            self.generic_visit(node)
+            if isinstance(node.value, ast.Call) and call_name(node.value) == "Mapping" and node.attr in field_of:
+                p = field_of[node.attr]
+                args = dict(zip(params, node.value.args))
+                args.update({k.arg: k.value for k in node.value.keywords if k.arg})
+                if p in args:
+                    return args[p]
+            return node
+
+    try:
+        return unparse(T().visit(ast.parse(text, mode="eval").body))
+    except SyntaxError:
+        return text
+
+
 def r2_mirror_construction(ctx: Ctx) -> None:
     mp = ctx.repo.func(MAPPING, "Bus.map")
     P = mp.params()
@@ -147,7 +171,7 @@ def r2_mirror_construction(ctx: Ctx) -> None:
     for lp in loops:
         it = lp.iter
         if isinstance(it, ast.Call) and call_name(it) == "range" and len(it.args) == 2:
-            lo, hi = unparse(it.args[0]), unparse(it.args[1])
+            lo, hi = _project(ctx, canon(mp.node, it.args[0])), _project(ctx, canon(mp.node, it.args[1]))
             for rng in (br, mir):
                 if lo == f"{rng}[0]":
                     store = [s for s in lp.body if isinstance(s, ast.Assign) and unparse(s.targets[0]) == f"self.lookup[{unparse(lp.target)}]"]
